@@ -198,6 +198,9 @@ structure DState where
   pa : Py.MProg := #[]
   pb : Py.MProg := #[]
   pparams : List String := []
+  /-- a pipeline run as a chain of hierarchies (most recent first) -/
+  chain0 : Hier := []
+  chain : List (Spec.StepTag × Hier) := []
 
 def parseNg (s : String) : Except String Model.NameGen :=
   if s == "-" || s.isEmpty then pure [] else
@@ -316,6 +319,22 @@ def diagSim {β : Type} [BEq β] [Hashable β] [Repr β] (A : Sys (Option Name))
   | none => "closed"
   | some p => s!"orig={repr (A.obs p.1)} here={repr (B.obs p.2)} state={repr p.2}"
 
+/-- one pseudo-random walk of both systems (failing-input search, not a decision procedure):
+    `some ds` = the decisions after which the two observations differ -/
+def walkDiff {α β : Type} (A : Sys α) (B : Sys β) : Nat → Nat → α → β → List Nat → Option (List Nat)
+  | 0, _, _, _, _ => none
+  | len + 1, rnd, a, b, acc =>
+    if A.obs a != B.obs b then some acc.reverse
+    else
+      let k := (A.obs a).arity
+      if k == 0 then none else
+      let rnd' := (rnd * 6364136223846793005 + 1442695040888963407) % 18446744073709551616
+      let d := (rnd' / 65536) % k
+      walkDiff A B len rnd' (A.step a d) (B.step b d) (d :: acc)
+
+def walksDiff {α β : Type} (A : Sys α) (B : Sys β) (a0 : α) (b0 : β) (n len seed : Nat) : Option (List Nat) :=
+  (List.range n).findSome? fun i => walkDiff A B len (seed + 7919 * i + 1) a0 b0 []
+
 def step (st : DState) (line : String) : DState × String :=
   let line := line.trimAscii.toString
   match line.splitOn " " with
@@ -325,6 +344,36 @@ def step (st : DState) (line : String) : DState × String :=
   | ["H", top, h] => match parseHier h with
     | .ok hh => ({ st with h := hh, htop := top }, "ok")
     | .error e => (st, s!"parse-error {e}")
+  | ["WALKS", n, len, seed] =>
+    match n.toNat?, len.toNat?, seed.toNat? with
+    | some n, some len, some seed =>
+      let G := st.g; let H := st.h
+      (st, match walksDiff (sysOrig G) (sysName H false) (initOrig G st.gtop) (initName H st.htop false) n len seed with
+        | none => "ok"
+        | some ds => "diff " ++ ",".intercalate (ds.map toString))
+    | _, _, _ => (st, "bad-args")
+  | ["CHAIN0", _, h] => match parseHier h with
+    | .ok g => ({ st with chain0 := g, chain := [] }, "ok")
+    | .error e => (st, s!"parse-error {e}")
+  | ["CHAINSTEP", tag, a, b, _, h] => match parseHier h with
+    | .ok hh =>
+      let t : Option Spec.StepTag := match tag with
+        | "wrapped" => some (.wrapped a b)
+        | "spliced" => some (.spliced a b)
+        | "rerouted" => some .rerouted
+        | "closed" => some (.closed a)
+        | _ => none
+      match t with
+      | some t => ({ st with chain := (t, hh) :: st.chain }, "ok")
+      | none => (st, "bad-tag")
+    | .error e => (st, s!"parse-error {e}")
+  | ["CHAINEND"] =>
+    let steps := st.chain.reverse
+    let bad := match Spec.chainFirstBad st.chain0 steps 0 with
+      | none => "-"
+      | some k => toString k
+    let fuel := Spec.chainFuel steps (1, 1)
+    (st, s!"flat={bit (Spec.flatB st.chain0)} chain={bit (Spec.chainOK st.chain0 steps)} total={bit (Spec.chainOKc st.chain0 steps)} steps={steps.length} firstbad={bad} bits={String.join ((Spec.chainBits st.chain0 steps).map bit)}- fuelR={fuel.1} fuelF={fuel.2}")
   | ["CHK"] =>
     let G := st.g; let H := st.h
     let out := " ".intercalate [
@@ -489,6 +538,8 @@ def step (st : DState) (line : String) : DState × String :=
   | ["RENDER", top, bf] => (st, showM (Model.renderM st.h top (bf == "1")) fun d =>
       s!"{cj (d.nodes.map fun p => p.1 ++ "@" ++ p.2)} {cj (d.clusters.map fun p => p.1 ++ "@" ++ p.2)} {cj (d.edges.map fun e => e.1 ++ ">" ++ e.2.1 ++ ":" ++ (if e.2.2 then "d" else "s"))}")
   | ["SPEC", "wrapped", r, hdr] => (st, bit (Spec.wrappedB st.g st.h r hdr))
+  | ["SPEC", "closed", new, _] => (st, bit (Spec.closedB st.g st.h new))
+  | ["SPEC", "rerouted"] => (st, bit (Spec.reroutedB st.g st.h (Spec.freshVars st.g st.h)))
   | ["SPEC", "spliced", new, s] => (st, bit (Spec.splicedB st.g st.h new s))
   | ["SPEC", "io_ready", top] => (st, bit (Spec.ioReady st.h top))
   | ["IO", "to_dict", top] => (st, showM (Model.toDict st.h top) printDict)
